@@ -280,6 +280,9 @@ class Skeleton:
         if rem[0] == "tproj" and rem[2] == 1 and rem[1][0] == "call" and rem[1][1].endswith("::split_at") and len(rem[1][2]) == 2:
             # x.split_at(k).1 is the tail of x
             k = rem[1][2][1]
+            same = self._same_suffix(rem[1][2][0], k, inp, x, ps, depth)
+            if same is not None:
+                return same
             tag = "slice"
             if (k[0] == "lit" and isinstance(k[2], int) and k[2] >= 1) or (k[0] == "bin" and k[1] == "Add" and ("lit", "int", 1) in (k[2], k[3])):
                 tag = "strict"
@@ -289,6 +292,9 @@ class Skeleton:
             r = rem[2]
             if r[0] == "struct" and r[1].endswith("RangeFrom"):
                 start = dict(r[2]).get("start")
+                same = self._same_suffix(rem[1], start, inp, x, ps, depth) if start is not None else None
+                if same is not None:
+                    return same
                 tag = "slice"
                 if start and start[0] == "lit" and isinstance(start[2], int) and start[2] >= 1:
                     # i[k..] taken under a non-emptiness fact is strict; the discharge of the bound is C05-U's business
@@ -300,6 +306,35 @@ class Skeleton:
             if r[0] == "struct" and r[1].endswith("RangeFull"):
                 return self.chain(rem[1], inp, x, ps, depth + 1)
             return None
+        return None
+
+    def _same_suffix(self, base, k, inp, x, ps, depth):
+        """base[k..] where k is computed from lengths: if some parser remainder R on this path is a suffix of `base` of
+        the same length (len(base) - k = len(R), entailed by the slice-length facts), base[k..] *is* R - two suffixes of
+        one slice with equal length are the same slice - and the chain continues through R."""
+        if k[0] == "lit" or depth > 40 or not any(isinstance(u, tuple) and u and u[0] == "call" and u[1].endswith("::len") for u in pathsum.subterms(k)):
+            return None
+        import fm
+        import slicelin
+        sl = slicelin.SliceLin(self, ps, inp)
+        facts = None
+        for (pid, src, t, oc) in self.apps_on_path(x, ps):
+            if oc is not True:
+                continue
+            R = ("tproj", ("payload", t, OK, 0), 0)
+            if pathsum.strip_sites(R) == pathsum.strip_sites(base):
+                continue
+            try:
+                via = self.chain(R, base, x, ps, depth + 1)
+            except RecursionError:
+                via = None
+            if via is None:
+                continue
+            if facts is None:
+                facts = sl.premises(x) + sl.cond_facts(x)
+            f2 = facts + sl.slice_facts(pathsum.strip_sites(R), x) + [fm.ge0(sl.ln(R))]
+            if all(fm.entails(f2, g) for g in fm.eq(sl.ln(base) - sl.L(k), sl.ln(R))):
+                return self.chain(R, inp, x, ps, depth + 1)
         return None
 
     def err_kinds(self, e, x, ps):
